@@ -137,9 +137,17 @@ fn apply_op(w: &mut World, op: &Op) -> Result<bool, String> {
                     }
                 }
             } else {
-                match w.g.unset_instantiation_argument(inst, name, src) {
-                    Ok(()) => { if listed(&w.g) { return Err(format!("unset_instantiation_argument returned Ok but `{name}` is still listed with that node")); } }
-                    Err(_) => {}
+                // "unsets the argument IF it is passed by that node": everything else - the same argument passed by another
+                // node, the other arguments, the other instantiations - stays as it was
+                let all_args = |g: &CompositionGraph| -> Vec<(NodeId, Vec<(String, NodeId)>)> {
+                    g.node_ids().filter(|n| matches!(g[*n].kind(), NodeKind::Instantiation(_))).map(|n| { let mut a: Vec<(String, NodeId)> = g.get_instantiation_arguments(n).map(|(x, y)| (x.to_string(), y)).collect(); a.sort(); (n, a) }).collect()
+                };
+                let before_all = all_args(&w.g);
+                let r = w.g.unset_instantiation_argument(inst, name, src);
+                let mut want = before_all.clone();
+                if r.is_ok() { for (n, a) in want.iter_mut() { if *n == inst { a.retain(|(x, y)| !(x == name && *y == src)); } } }
+                if all_args(&w.g) != want {
+                    return Err(format!("unset_instantiation_argument(`{name}`, a node that {} the argument) returned {}: the arguments of the graph went from {:?} to {:?}", if listed_any(&w.g) || before_all.iter().any(|(n, a)| *n == inst && a.iter().any(|(x, y)| x == name && *y == src)) { "passes / passed" } else { "does not pass" }, if r.is_ok() { "Ok" } else { "Err" }, before_all, all_args(&w.g)));
                 }
             }
             Ok(true)
